@@ -343,18 +343,69 @@ func asDecState(state interface {
 	return d
 }
 
-// wrapSyntacticError dispatches through an interface value and builds the error
-// text; it is NOT proved. Assumed: it returns a non-nil error for a non-nil
-// error, and its only effect on the coder is that of AppendStackPointer, which
-// copies the names still referenced in the buffer into the name stack (the
-// representation changes, the names do not).
+// wrapSyntacticError dispatches through an interface value (offsetAt,
+// AppendStackPointer, options); those calls are havocked when its body is
+// verified. Its frame (the only effect on the coder is AppendStackPointer's
+// copyQuotedBuffer) and the well-formedness of the name stack afterwards are
+// ASSUMED; what is proved: a non-nil error yields a non-nil error, no panic, and
+// the mismatched-delimiter rewrite applies Parent() to the pointer only when the
+// pointer has a token for the next element: with where = +1, AppendStackPointer
+// already stops at the enclosing object when that object expects a name, so a
+// second Parent() would name the grandparent (finding F3).
 //
+//@ extern method:options() (result *jsonopts.Struct)
+//@ trusted the two implementations (encoderState.options, decoderState.options) return the address of an embedded struct: never nil, no side effect
+//@ ensures result != nil
+
+//@ extern method:offsetAt(pos int) (result int64)
+//@ trusted the two implementations return baseOffset + pos; stream offsets stay below 2^61
+//@ ensures 0 <= result && result < 1<<61
+
+//@ spec isDecState
+func isDecState(state interface {
+	options() *jsonopts.Struct
+	offsetAt(pos int) int64
+	AppendStackPointer(b []byte, where int) []byte
+}) bool {
+	_, ok := state.(*decoderState)
+	return ok
+}
+
+//@ spec isSuffixErr
+func isSuffixErr(err error) bool {
+	_, ok := err.(*pointerSuffixError)
+	return ok
+}
+
+//@ spec anyEnc
+func anyEnc(x any) *encoderState {
+	e, _ := x.(*encoderState)
+	return e
+}
+
+//@ spec anyDec
+func anyDec(x any) *decoderState {
+	d, _ := x.(*decoderState)
+	return d
+}
+
+//@ extern method:AppendStackPointer(b []byte, where int) (result []byte)
+//@ trusted the two implementations (encoderState/decoderState.AppendStackPointer) call Names.copyQuotedBuffer on the coder's buffer and then only append to b
+//@ modifies anyEnc(recv).state.Names.unquotedNames, anyEnc(recv).state.Names.unquotedNames[:cap(anyEnc(recv).state.Names.unquotedNames)], anyEnc(recv).state.Names.offsets[:], anyDec(recv).state.Names.unquotedNames, anyDec(recv).state.Names.unquotedNames[:cap(anyDec(recv).state.Names.unquotedNames)], anyDec(recv).state.Names.offsets[:], anyDec(recv).decodeBuffer.buf[:], b[len(b):cap(b)]
+//@ ensures sameOrFresh(result, b) && len(result) >= len(b)
+
 //@ func wrapSyntacticError
-//@ trusted NOT PROVED: interface dispatch and error-text construction; frame and non-nil result assumed
+//@ property C16 C20
+//@ requires state != nil && 0 <= pos
+//@ requires asDecState(state) != nil ==> pos <= len(asDecState(state).buf)
+//@ requires no-typed-nil: isDecState(state) ==> asDecState(state) != nil
+//@ at call state.AppendStackPointer#0 assume suffix-error-invariant: isSuffixErr(err) ==> asSuffixErr(err) != nil && (len(asSuffixErr(err).reversePointer) == 0 || asSuffixErr(err).reversePointer[0] == '/')
+//@ frame-assumed interface dispatch (AppendStackPointer copies names; nothing else of the coder changes)
 //@ modifies asEncState(state).state.Names.unquotedNames, asEncState(state).state.Names.unquotedNames[:cap(asEncState(state).state.Names.unquotedNames)], asEncState(state).state.Names.offsets[:], asDecState(state).state.Names.unquotedNames, asDecState(state).state.Names.unquotedNames[:cap(asDecState(state).state.Names.unquotedNames)], asDecState(state).state.Names.offsets[:], asDecState(state).decodeBuffer.buf[:]
 //@ ensures nonnil: err != nil ==> result != nil
-//@ ensures dec-names: asDecState(state) != nil ==> nsLocalOK(asDecState(state).Names.offsets, asDecState(state).Names.unquotedNames) && nsRemoteOK(asDecState(state).Names.offsets, len(asDecState(state).buf)) && distinctArrays(asDecState(state).Names.unquotedNames, asDecState(state).buf) && len(asDecState(state).Names.offsets) == old(len(asDecState(state).Names.offsets))
-//@ ensures enc-names: asEncState(state) != nil ==> nsLocalOK(asEncState(state).Names.offsets, asEncState(state).Names.unquotedNames) && nsRemoteOK(asEncState(state).Names.offsets, len(asEncState(state).Buf)) && len(asEncState(state).Names.offsets) == old(len(asEncState(state).Names.offsets))
+//@ ensures-assumed dec-names: asDecState(state) != nil ==> nsLocalOK(asDecState(state).Names.offsets, asDecState(state).Names.unquotedNames) && nsRemoteOK(asDecState(state).Names.offsets, len(asDecState(state).buf)) && distinctArrays(asDecState(state).Names.unquotedNames, asDecState(state).buf) && len(asDecState(state).Names.offsets) == old(len(asDecState(state).Names.offsets))
+//@ ensures-assumed enc-names: asEncState(state) != nil ==> nsLocalOK(asEncState(state).Names.offsets, asEncState(state).Names.unquotedNames) && nsRemoteOK(asEncState(state).Names.offsets, len(asEncState(state).Buf)) && len(asEncState(state).Names.offsets) == old(len(asEncState(state).Names.offsets))
+//@ at call Pointer(ptr).Parent#1 assert mismatch-pointer: !d.Tokens.Last.NeedObjectName()
 
 // The callbacks passed to AppendRaw (strconv.Append*, time/duration appenders,
 // MarshalText/AppendText wrappers) only append to the buffer they are given.
